@@ -199,3 +199,22 @@ package chainexchange
 //@   inlined
 //@   modifies nothing
 //@   ensures[a_placeholder_is_the_one_shared_marker_object] result == (cp == chainPortionPlaceHolder)
+
+// Configuration reaches the admission rule unchanged: every limit of the exchange is written in exactly two places — the
+// defaults in newOptions and the option that sets it — so an explicitly configured value (zero look-ahead included, which
+// means "current instance only") is never replaced afterwards.
+//@ structural storesonly options.maxInstanceLookahead in newOptions, WithMaxInstanceLookahead$1 : an explicitly configured look-ahead (0 = current instance only) is what the admission rule uses
+//@   property C18
+//@ structural storesonly options.maxChainLength in newOptions, WithMaxChainLength$1 : an explicitly configured chain length limit is what the admission rule uses
+//@   property C18
+//@ structural storesonly options.maxTimestampAge in newOptions, WithMaxTimestampAge$1 : an explicitly configured timestamp window is what the admission rule uses
+//@   property C18
+//@ structural storesonly options.maxDiscoveredChainsPerInstance in newOptions, WithMaxDiscoveredChainsPerInstance$1 : the configured discovered capacity is what the cache is created with
+//@   property C18
+//@ structural storesonly options.maxWantedChainsPerInstance in newOptions, WithMaxWantedChainsPerInstance$1 : the configured wanted capacity is what the cache is created with
+//@   property C18
+
+//@ func WithMaxInstanceLookahead$1
+//@   property C18
+//@   modifies auto
+//@   ensures[the_option_sets_exactly_the_given_look_ahead] result == nil && o.maxInstanceLookahead == lookahead
